@@ -207,6 +207,7 @@ typedef struct pv_world {
     uint8_t kdf_mask[32];
     int memzero_mode;               /* 0 wipe, 1 log only (positive control) */
     int kdf_protect;                /* C04: mprotect key page after writing */
+    size_t kdf_nowrite_above;       /* C04: key lengths above this are only recorded, the buffer is not touched (0 = always write) */
     long fail_countdown;            /* >0: the k-th allocation request from now fails */
     uint64_t fail_mask; int fail_mask_n;
     int reuse_mode;                 /* 1: the most recently freed block is handed out again by the next request of the same size (address reuse) */
@@ -304,7 +305,8 @@ void pv_kdf_mix(const uint8_t* pw, size_t pwlen, const uint8_t* salt, size_t sal
 
 /* link-time libc interposition (pv_wrap.c; only in the *-wrap flavours) */
 enum { PV_WRAP_MALLOC, PV_WRAP_FREE, PV_WRAP_CALLOC, PV_WRAP_REALLOC, PV_WRAP_TIME, PV_WRAP_CLOCK_GETTIME, PV_WRAP_GETTIMEOFDAY, PV_WRAP_GETRANDOM,
-       PV_WRAP_GETENTROPY, PV_WRAP_RAND, PV_WRAP_RANDOM, PV_WRAP_OPEN, PV_WRAP_FOPEN, PV_WRAP_CLOCK, PV_WRAP_N };
+       PV_WRAP_GETENTROPY, PV_WRAP_RAND, PV_WRAP_RANDOM, PV_WRAP_OPEN, PV_WRAP_FOPEN, PV_WRAP_CLOCK,
+       PV_WRAP_MKTIME, PV_WRAP_TIMEGM, PV_WRAP_GMTIME, PV_WRAP_GMTIME_R, PV_WRAP_LOCALTIME, PV_WRAP_LOCALTIME_R, PV_WRAP_N };
 extern uint64_t pv_wrap_count[PV_WRAP_N];
 extern int pv_wrap_time_scripted;
 #include <time.h>
